@@ -363,11 +363,16 @@ class LocalBackend(TrialBackend):
             return []
 
     def stdout(self, trial_id: int) -> List[str]:
-        with open(self.trial_path(trial_id=trial_id) / "std.out", "r") as f:
+        # The script may write anything to its stdout, not necessarily UTF-8
+        with open(
+            self.trial_path(trial_id=trial_id) / "std.out", "r", errors="replace"
+        ) as f:
             return f.readlines()
 
     def stderr(self, trial_id: int) -> List[str]:
-        with open(self.trial_path(trial_id=trial_id) / "std.err", "r") as f:
+        with open(
+            self.trial_path(trial_id=trial_id) / "std.err", "r", errors="replace"
+        ) as f:
             return f.readlines()
 
     def set_path(
